@@ -31,7 +31,8 @@ partial def parseAct (j : Json) : Act :=
     | [.str "flowOff", b] => .flowOff (parseAct b)
     | [.str "analysis", b] => .analysis (parseAct b)
     | [.str "predefine", b] => .predefine (parseAct b)
-    | [.str "dynDepth", b] => .dynDepth (parseAct b)
+    | [.str "dynParam", n, b] => .dynParam (asNat n) (parseAct b)
+    | [.str "searchArgs", n] => .searchArgs (asNat n)
     | _ => .skip
   | _ => .skip
 
@@ -43,9 +44,13 @@ def handle (j : Json) : Json :=
     jarr (out.map fun n => jnat n.kind)
   | "session" =>
     let qs := (arr j "queries").map parseAct
-    let r := session JediModel.Gen.C16.resetAssigns (nat j "cap") (nat j "factor") QState.init qs
+    -- the bracket of `_avoid_recursions` and MAX_PARAM_SEARCHES as they stand in the source
+    let c : Cfg := { cap := nat j "cap", factor := nat j "factor",
+                     maxSearches := JediModel.Gen.C16.maxParamSearches, bracket := JediModel.Gen.C16.dynBracket }
+    let r := session JediModel.Gen.C16.resetAssigns c QState.init qs
     jobj [("flow", jbool r.1.flowAnalysisEnabled), ("analysis", jbool r.1.isAnalysis),
-          ("predefined", jnat r.1.predefined), ("dyn", jnat r.1.dynamicParamsDepth),
+          ("predefined", jnat r.1.predefined), ("dyn", jint r.1.dynamicParamsDepth),
+          ("pushed", jnat r.1.pushed.length),
           ("queries", jarr (r.2.map fun q => jarr [jbool q.1, jarr (q.2.map jbool)]))]
   | op => jobj [("error", jstr ("unknown op " ++ op))]
 
